@@ -1408,8 +1408,17 @@ func (x *Exec) execLoopCommon(node ast.Node, bodyPos token.Pos, env *Env, label 
 		end = post(end)
 	}
 	if end != nil && lc != nil {
+		endPos := bodyPos
+		switch nd := node.(type) {
+		case *ast.ForStmt:
+			endPos = nd.Body.Rbrace
+		case *ast.RangeStmt:
+			endPos = nd.Body.Rbrace
+		}
 		for i, c := range lc.Steps {
-			sc := loopScope(end)
+			// evaluated at the end of the body: variables declared at the top level of the body are in scope
+			sc := x.scopeAt(end, endPos)
+			sc.entry = x.scopeAt(entryEnv, bodyPos)
 			sc.prev = x.scopeAt(iterStart, bodyPos)
 			x.assert(end, tag+"/step:"+clauseName(c, i), "", sc.EvalBool(c.Expr))
 		}
